@@ -6,8 +6,8 @@ import time
 
 from common import KANI_TARGET, Undecided, log, run
 
-JOBS = int(os.environ.get("VERIF_JOBS", "8"))
-MEM_GB = int(os.environ.get("VERIF_MEM_GB", "12"))  # address-space limit per process (cbmc)
+JOBS = int(os.environ.get("VERIF_JOBS", "6"))
+MEM_GB = int(os.environ.get("VERIF_MEM_GB", "9"))  # resident-set limit per cbmc process (watchdog in common.run); JOBS x MEM_GB must stay below RAM
 
 
 class HarnessResult:
@@ -109,7 +109,11 @@ def run_kani(tree, crate, harnesses, timeout_s, harness_timeout_s, extra_args=()
     if cbmc_args:
         cmd += ["--cbmc-args"] + list(cbmc_args)   # must be the last flag
     shown = "CARGO_NET_OFFLINE=true " + "".join("%s='%s' " % kv for kv in (env or {}).items()) + " ".join(cmd)
-    rc, out, secs = run(cmd, cwd=tree, timeout=timeout_s, mem_gb=MEM_GB, env=env)
+    # one cargo-kani at a time per target directory: concurrent runs on the same target dir lose per-harness result files
+    import fcntl
+    with open(os.path.join(KANI_TARGET, ".verif-lock"), "w") as lockf:
+        fcntl.flock(lockf, fcntl.LOCK_EX)
+        rc, out, secs = run(cmd, cwd=tree, timeout=timeout_s, mem_gb=MEM_GB, env=env)
     results = {h: HarnessResult(h) for h in harnesses}
     # build failure?
     if "Checking harness" not in out and "Complete -" not in out:
@@ -127,6 +131,8 @@ def run_kani(tree, crate, harnesses, timeout_s, harness_timeout_s, extra_args=()
         pass
     for h, res in results.items():
         if res.full_name is None:
+            if rc is None:
+                res.status = "timeout"   # the whole run hit its wall-clock budget before this harness started
             continue
         f = os.path.join(outdir, res.full_name)
         if os.path.exists(f):
